@@ -6,6 +6,7 @@ import ALV.Lemmas.C09
 import ALV.Lemmas.C09Gain
 import ALV.Lemmas.C09Order
 import ALV.Lemmas.C09Inverse
+import ALV.Lemmas.C09Stft
 import Mathlib.Algebra.Order.Field.Rat
 import ALV.Common.Audit
 
@@ -244,6 +245,128 @@ example : ∀ j, j < 2 → sumTo (4 / 2) (fun i =>
   have a4 : ¬ ((1 : ℚ) + 3 < 3 + 1) := by norm_num
   rcases this with rfl | rfl <;>
     simp [sumTo, gainSpec, wndSpec, maxStrided, maxTo, stridedAbsSum, absS, a1, a3, a4] <;> norm_num
+
+section stft_plan
+
+/-- **C09.5** the overlap-add strategy is called with `size`, `hop` and exactly the options given
+with the `ola_` prefix, prefix removed (an `ola_size` / `ola_hop` option wins over `size` /
+`hop`); nothing else gets through.  `dictUpdate kwparams kwargs` is the merge of the defaults
+(decorator / partial keywords) with the keywords of the call. -/
+theorem stft_ola_kwargs (kwparams kwargs : Dict) (plan : Plan)
+    (h : stftPlan kwparams kwargs = .ok plan) :
+    ∃ size, dictGet (dictUpdate kwparams kwargs) "size" = some size ∧
+      ∀ k, dictGet plan.olaParams k =
+        olaKwSpec size ((dictGet (dictUpdate kwparams kwargs) "hop").getD .none)
+          (dictUpdate kwparams kwargs) k := by
+  unfold stftPlan at h
+  generalize dictUpdate kwparams kwargs = merged at h ⊢
+  cases hsz : dictGet merged "size" with
+  | none => simp [hsz] at h
+  | some size =>
+    refine ⟨size, rfl, ?_⟩
+    simp only [hsz] at h
+    split at h
+    · simp at h
+    · simp only [dictPop] at h
+      split at h
+      · simp at h
+      · rename_i r hr
+        simp only [Except.ok.injEq] at h
+        subst h
+        intro k
+        obtain ⟨_, _, hr3⟩ := routeRest_ok _ _ _ _ hr
+        simp only [hr3, dictGet_dictUpdate, lastFor_filterMap_strip]
+        have hne : ∀ s, stripOla s = none → "ola_" ++ k ≠ s := fun s hs => ola_ne k s hs
+        rw [lastFor_filter_ne _ _ _ (hne _ strip_aft), lastFor_filter_ne _ _ _ (hne _ strip_bef),
+          lastFor_filter_ne _ _ _ (hne _ strip_itr), lastFor_filter_ne _ _ _ (hne _ strip_tr),
+          lastFor_filter_ne _ _ _ (hne _ strip_ola), lastFor_filter_ne _ _ _ (hne _ strip_wnd),
+          lastFor_filter_ne _ _ _ (hne _ strip_hop), lastFor_filter_ne _ _ _ (hne _ strip_size)]
+        rw [hsz, dictGet_filter_ne _ _ _ (by decide : "hop" ≠ "size")]
+        unfold olaKwSpec lastFor
+        generalize (merged.filter fun kv => decide (kv.1 = "ola_" ++ k)).getLast? = o
+        cases o with
+        | some kv => rfl
+        | none =>
+          simp only [Option.map_none, Option.getD_some]
+          by_cases h1 : k = "size"
+          · subst h1; rfl
+          · by_cases h2 : k = "hop"
+            · subst h2; rfl
+            · have a1 : ¬ "size" = k := fun e => h1 e.symm
+              have a2 : ¬ "hop" = k := fun e => h2 e.symm
+              simp [dictGet, List.find?, h1, h2, a1, a2]
+
+/-- **C09.5b** what the wrapper accepts: a plan exists only if `size` is given, `hop ≤ size` when
+both are integers, and every keyword is one of the eight known names or an `ola_` option — the
+latter only with an overlap-add strategy (`ola` not `None`). -/
+theorem stft_plan_checks (kwparams kwargs : Dict) (plan : Plan)
+    (h : stftPlan kwparams kwargs = .ok plan) :
+    (∀ hh s, dictGet (dictUpdate kwparams kwargs) "hop" = some (.int hh) →
+        dictGet (dictUpdate kwparams kwargs) "size" = some (.int s) → hh ≤ s) ∧
+    (∀ kv ∈ dictUpdate kwparams kwargs,
+        kv.1 ∈ ["size", "hop", "wnd", "ola", "transform", "inverse_transform", "before", "after"] ∨
+        (∃ k', kv.1 = "ola_" ++ k') ∧ plan.ola ≠ .none) := by
+  unfold stftPlan at h
+  generalize dictUpdate kwparams kwargs = merged at h ⊢
+  cases hsz : dictGet merged "size" with
+  | none => simp [hsz] at h
+  | some size =>
+    simp only [hsz] at h
+    split at h
+    · simp at h
+    · rename_i hchk
+      simp only [dictPop] at h
+      split at h
+      · simp at h
+      · rename_i r hr
+        simp only [Except.ok.injEq] at h
+        subst h
+        obtain ⟨hr1, hr2, _⟩ := routeRest_ok _ _ _ _ hr
+        constructor
+        · intro hh s hhop hs
+          obtain rfl : size = .int s := Option.some.inj hs
+          simp only [hhop] at hchk
+          by_cases hgt : hh > s
+          · simp [hgt] at hchk
+          · omega
+        · intro kv hkv
+          by_cases hk : kv.1 ∈ ["size", "hop", "wnd", "ola", "transform", "inverse_transform",
+              "before", "after"]
+          · exact Or.inl hk
+          · right
+            simp only [List.mem_cons, List.not_mem_nil, or_false, not_or] at hk
+            have hmem : kv ∈ List.filter (fun x => decide (x.fst ≠ "after"))
+                (List.filter (fun x => decide (x.fst ≠ "before"))
+                (List.filter (fun x => decide (x.fst ≠ "inverse_transform"))
+                (List.filter (fun x => decide (x.fst ≠ "transform"))
+                (List.filter (fun x => decide (x.fst ≠ "ola"))
+                (List.filter (fun x => decide (x.fst ≠ "wnd"))
+                (List.filter (fun x => decide (x.fst ≠ "hop"))
+                (List.filter (fun x => decide (x.fst ≠ "size")) merged))))))) := by
+              simp only [List.mem_filter, decide_eq_true_eq]
+              tauto
+            exact ⟨hr1 kv hmem, hr2 (List.ne_nil_of_mem hmem)⟩
+
+/-- **C09.6** the three calling styles: every keyword-only call merges its keywords over the
+ones collected so far (later wins, `dictGet_dictUpdate`), so
+* the decorator `@stft(**kw)` (= `stft(**kw)(f)`, an empty merge) builds the wrapper of `stft(f, **kw)`;
+* a partial chain `stft(**kw₁)…(**kwₙ)` ends with the defaults `kw₁` updated by `kw₂` … `kwₙ`;
+* the value the wrapper sees for a keyword is the last one given along the chain and the call. -/
+theorem stft_styles (chain : List Dict) (kw d call : Dict) (k : String) :
+    stftDefaults ([kw] ++ [[]]) = stftDefaults [kw] ∧
+    stftDefaults (chain ++ [d]) = dictUpdate (stftDefaults chain) d ∧
+    dictGet (dictUpdate (stftDefaults chain) call) k =
+      (match lastFor call k with
+        | some v => some v
+        | none => match lastFor chain.flatten k with
+          | some v => some v
+          | none => none) := by
+  refine ⟨?_, stftDefaults_snoc chain d, ?_⟩
+  · rw [stftDefaults_snoc]; rfl
+  · rw [dictGet_dictUpdate, stftDefaults_eq_flatten, dictGet_dictUpdate]
+    rfl
+
+end stft_plan
 
 /-- non-vacuity: two blocks of 3 with hop 2 and a non-trivial window -/
 example : (olaCore 3 2 (some [1, 2, 3]) [[1, 10, 100], [1000, 10000, 100000]] : Out Int).out
